@@ -392,7 +392,46 @@ func genWrap(seed int64, n int, tier string) []Script {
 	return out
 }
 
+// genWrapDefault: the default configuration (8 MiB buffer and window, 128 KiB
+// blocks: the buffer slice grows through intermediate capacities) with
+// streams whose length lies around the first intermediate capacity
+// (64 KiB + 7), delivered in large reads, the last one together with io.EOF
+// or with an error. Incompressible data keeps the blocks (and TLC's work)
+// small: one literal run per block.
+func genWrapDefault(seed int64, n int, tier string) []Script {
+	r := rand.New(rand.NewSource(seed))
+	var out []Script
+	kinds := []string{"HP", "BHP", "DHP", "BDHP", "BUP"}
+	for i := 0; i < n; i++ {
+		kind := kinds[i%len(kinds)]
+		cfg := map[string]any{"kind": kind}
+		total := 65536 + pickInt(r, -6, -1, 0, 1, 3, 4, 5, 6, 7, 8, 9, 14)
+		if r.Intn(4) == 0 {
+			total = pickInt(r, 1017, 1024, 1031, 2055, 131072+7, 131072)
+		}
+		data := make([]byte, total)
+		r.Read(data)
+		calls := []any{}
+		switch r.Intn(3) {
+		case 0: // one read with everything and io.EOF
+			cfg["eofwith"] = true
+		case 1: // everything but a few bytes, then the rest with an error, then EOF
+			calls = append(calls, []any{total - r.Intn(9), ""}, []any{100, "reader"})
+			cfg["eofwith"] = r.Intn(2) == 0
+		default:
+			calls = append(calls, []any{32768, ""}, []any{32768 + r.Intn(16), ""})
+			cfg["eofwith"] = true
+		}
+		cfg["src"], cfg["rcalls"] = B2(data), calls
+		out = append(out, Script{Tid: "wrap-default-" + itoa(seed) + "-" + itoa(int64(i)), Comp: "wrap", Cfg: cfg,
+			Ops: []map[string]any{{"op": "wpump", "seed": r.Intn(1 << 30), "pntl": 0, "pnil": 0}},
+			Tags: []string{"go", kind, "defaultconfig"}})
+	}
+	return out
+}
+
 func init() {
 	components["wrap"] = runWrap
 	generators["wrap"] = genWrap
+	generators["wrap-default"] = genWrapDefault
 }
